@@ -1,6 +1,7 @@
 package props
 
 import (
+	"strings"
 	"fmt"
 	"math"
 	"time"
@@ -154,6 +155,12 @@ func c05Lattice(run *mon.Run, rng *mon.Rand) {
 						want = 1
 					}
 					run.Check("C05.last_finalized_query", err == nil && lf.OutputIndex == want, "c05.last_finalized", tr, "LastFinalizedOutput=%v, expected index %d", lf, want)
+				}
+				// "the last-finalized-output query always names the highest final index": in a block in which the chain pays a
+				// withdrawal against the output, or refuses its deletion because it is final, the query names it (also
+				// inside the one-second band: whichever way the chain decides there, it decides one way)
+				if err == nil && (res.Class == sim.OK || (dres.Class != sim.OK && strings.Contains(dres.ErrString(), "finalized"))) {
+					run.Check("C05.last_finalized_query", lf.OutputIndex >= 1, "c05.query_behind_finality", tr, "the chain treats output 1 as final in this block (claim %s, deletion %s %s) but LastFinalizedOutput names index %d", res.Class, dres.Class, dres.ErrString(), lf.OutputIndex)
 				}
 				// self-consistency once the chain has shown the output as final (also inside the one-second band):
 				// after a withdrawal was paid against it, or after the query named it, it can no longer be deleted
